@@ -83,10 +83,10 @@ class Objective:
 
 
 # ---- scenarios ----------------------------------------------------------------------------------------------------
-def make_level(kind, problem, lsc, seed_rng, generations):
+def make_level(kind, problem, lsc, seed_rng, generations, p_mutation=None):
     if kind in ("sea", "seax", "ga", "adaptive", "mwea"):
         cls = {"sea": SEA, "seax": SEAWithCrossover, "ga": GAStyleSEA, "adaptive": SEAWithAdaptiveMutation, "mwea": MWEA}[kind]
-        kw = dict(mutation_std=1.0, p_mutation=seed_rng.choice([1.0, 0.5]))
+        kw = dict(mutation_std=1.0, p_mutation=(p_mutation if p_mutation is not None else seed_rng.choice([1.0, 0.5])))
         if kind == "adaptive":
             kw["mutation_std_step"] = 0.1
         if kind == "mwea":
@@ -125,6 +125,12 @@ HANDCRAFTED = [
          level_limit=3, gsc="evals", gsc_n=5, lsc="metaepoch", hibernation=False, wrap="cutoff"),
     dict(kinds=["shade", "de", "local"], objective="plateau", box="dec3", maximize=True, generations=2, leaf_generations=2, sprout="nbc_multi",
          level_limit=2, gsc="metaepoch", gsc_n=8, lsc="metaepoch", hibernation=False, wrap="counting"),
+    dict(kinds=["seax", "de"], objective="funnels", box="sym2", maximize=False, generations=2, leaf_generations=3, sprout="nbc",
+         level_limit=3, gsc="evals", gsc_n=4, lsc="dontstop", hibernation=False, wrap="none", p_mutation=0.4),
+    dict(kinds=["ga", "de"], objective="sphere", box="asym2", maximize=True, generations=1, leaf_generations=3, sprout="simple",
+         level_limit=2, gsc="evals", gsc_n=3, lsc="dontstop", hibernation=False, wrap="none", p_mutation=0.4),
+    dict(kinds=["de", "de"], objective="funnels", box="sym2", maximize=False, generations=3, leaf_generations=3, sprout="nbc",
+         level_limit=3, gsc="evals_w", gsc_n=4, lsc="dontstop", hibernation=False, wrap="none"),
 ]
 
 
@@ -133,7 +139,7 @@ def scenarios(seed, tier):
     out = []
     for k, h in enumerate(HANDCRAFTED):
         out.append(dict(h, id=100 + k, seed=1000 * seed + 7 + k))
-    n = 14 if tier == "quick" else 60
+    n = 16 if tier == "quick" else 60
     for i in range(n):
         nlev = rng.choice([1, 2, 2, 2, 3, 3])
         kinds = [rng.choice(ROOTS)]
@@ -176,7 +182,7 @@ def build(sc, seed_override=None):
             lsc = FitnessSteadiness(max_deviation=1e-2, n_metaepochs=2)
         else:
             lsc = DontStop()
-        levels.append(make_level(kind, level_problem, lsc, rng, sc["leaf_generations"] if leaf else sc["generations"]))
+        levels.append(make_level(kind, level_problem, lsc, rng, sc["leaf_generations"] if leaf else sc["generations"], sc.get("p_mutation")))
     far = float(np.min(box[:, 1] - box[:, 0])) / 20
     if sc["sprout"] == "simple":
         sprout = get_simple_sprout(far, level_limit=sc["level_limit"])
